@@ -178,7 +178,7 @@ PROPS['C16'] = {
                    'observed on the real crate'),
     'level_note': 'Trusted: Lean kernel, harness, bincode 1.3 modelled for the Schema family (tied by differential decode); drop-based release observed, not proved',
 }
-PROPS['C01']['scenarios'] = (lambda old: (lambda tier, seed: old(tier, seed) + wire_scen('enc', 1200, 20000)(tier, seed)))(PROPS['C01']['scenarios'])
+PROPS['C01']['scenarios'] = (lambda old: (lambda tier, seed: old(tier, seed) + wire_scen('enc', 1200, 20000)(tier, seed) + bytes_scen(['default'], 150, 3000)(tier, seed)))(PROPS['C01']['scenarios'])
 PROPS['C01']['modules'] = ['IpcModel.Props.C01', 'IpcModel.Props.C16', 'IpcModel.Props.C01Value']
 PROPS['C01']['theorems'] += ['C16.C16_roundtrip', 'Wire.dec_enc', 'C01.C01_value_end_to_end']
 PROPS['C01']['claimed'] = True
@@ -452,6 +452,13 @@ def plus(*fs):
     return lambda tier, seed: [x for f in fs for x in f(tier, seed)]
 
 
+def bytes_scen(builds, nq, nt):
+    def f(tier, seed):
+        n = nt if tier == 'thorough' else nq
+        return [{'build': b, 'args': ['bytesapi', '--seed', str(seed), '--n', str(n), '--tier', tier]} for b in builds]
+    return f
+
+
 def search_world(run):
     for b in run.cfg.get('builds', ['default']):
         for k in range(3):
@@ -539,9 +546,11 @@ PROPS['C19'] = {
                  'Refine.dropHandles_char', 'Reach.reachG_iff', 'C03.C03_iff', 'C09.C09_error', 'C09.C09_transit'],
     'builds': ['default', 'memfd', 'force-inprocess'],
     'scenarios': (lambda a: (lambda tier, seed: a(tier, seed) + [{'build': b, 'args': ['set', '--seed', str(seed + k), '--n', str((3000 if tier == 'thorough' else 200) // 2), '--tier', tier]}
-                                                       for b in ('default', 'memfd') for k in range(2)]))(world_scen(['default', 'memfd', 'force-inprocess'], 300, 6000)),
+                                                       for b in ('default', 'memfd') for k in range(2)]
+                                                       + bytes_scen(['default', 'memfd', 'force-inprocess'], 120, 2000)(tier, seed)))(world_scen(['default', 'memfd', 'force-inprocess'], 300, 6000)),
     'search': search_world,
-    'rule': ('receiver-set scripts (incl. bursts of more than 10 ready members and long per-member backlogs) on the OS and memfd builds compared with the set model; '
+    'rule': ('bytesapi: the byte-channel API (raw payloads of 0 .. 2 packets+5 bytes, recv / try_recv, clones, disconnection, byte-channel endpoints embedded in typed '
+             'messages with a backlog) as seeded programs on the three builds, compared with both models; receiver-set scripts (incl. bursts of more than 10 ready members and long per-member backlogs) on the OS and memfd builds compared with the set model; '
              'the same seeded single-threaded program (same seed => same operation choices as long as results agree) of ~40 operations over up to 6 channels is executed on the '
              'OS transport, the memfd build and the in-process transport; each result sequence is compared with Ideal.run (hence pairwise) and, on the OS and memfd builds, with the '
              'descriptor-level model Unix.run, which must also report the program valid (the hypothesis of C19_refine); non-trivial = a message with handles was received; '
@@ -751,6 +760,7 @@ PROPS['C04'] = {
                  'Ideal.fifo_step', 'Ideal.fifo_run', 'Ideal.run_eq_runFrom', 'Wire.dec_enc'],
     'builds': ['default', 'memfd', 'force-inprocess'],
     'scenarios': plus(chain_scen(['default', 'memfd', 'force-inprocess'], 160, 4000), wire_scen('enc', 800, 12000), world_scen(['default'], 200, 4000),
+                      bytes_scen(['default', 'force-inprocess'], 100, 2000),
                       lambda tier, seed: [{'args': ['crash', '--shape', str(i), '--tier', tier]} for i in ((1, 2, 5) if tier == 'thorough' else (1,))],
                       frag_scen('c15', [4608], [4608, 0])),
     'search': search_chain,
